@@ -27,7 +27,7 @@ for rf in sorted(glob.glob('/tmp/seedres/C*-m*.json')):
     meta = {
         'property': pid, 'origin': 'independent sub-agent given only the property record and a scratch worktree',
         'files_changed': files,
-        'needs_to_manifest': notes.strip().split('\n\n')[0][:1200] if notes else '',
+        'needs_to_manifest': notes.strip()[:2500] if notes else '',
         'confirmed_by': 'tools/seedcheck.py on a scratch copy of /repo (never applied to /repo): demo exit 0 on the clean copy, '
                         'patch applies (C rebuilt when touched), pinned test suite keeps all 183 baseline tests passing, demo exits non-zero with the patch',
         'demo_clean_rc': res['demo_clean_rc'], 'demo_patched_rc': res['demo_patched_rc'],
